@@ -544,6 +544,19 @@ theorem quiet_readNowait (s : S) (n : Option Nat) : Quiet s (readNowait s n).1 :
 
 /-! ### postcondition of a consumer coroutine run -/
 
+/-- continuation kinds that never hold bytes -/
+def simpleKind : Kind → Bool
+  | .read _ => true
+  | .readAny => true
+  | .readChunk => true
+  | _ => false
+
+/-- a call parked in `read(n)`, `readany` or `readchunk` holds no bytes -/
+def AccOk (s : S) : Prop := ∀ p, s.parked = some p → simpleKind p.kind = true → p.acc = []
+
+theorem accok_of_none {s : S} (h : s.parked = none) : AccOk s := by
+  intro p hp; rw [h] at hp; cases hp
+
 /-- `r` is the result of running a consumer coroutine from state `s`, having entered with `acc`
 already taken: the state moved only by primitive moves; unless bytes were lost to an
 exception, what it returned plus what it still holds is `acc` plus what it took -/
@@ -551,15 +564,16 @@ structure Post (s : S) (acc : Bytes) (r : S × Out) : Prop where
   reach : ∃ d, Reach s r.1 d ∧ (r.1.lost = false → outBytes r.2 ++ pendAcc r.1 = acc ++ d)
   unparked : r.2 ≠ .blocked → r.1.parked = none
   blocked : r.2 = .blocked → r.1.waiter = true
+  accok : AccOk r.1
 
 theorem post_raise {s : S} (hp : s.parked = none) (acc : Bytes) (e : Err) : Post s acc (raise s acc e) := by
-  refine ⟨⟨[], Reach.one (Move.lose s (!acc.isEmpty)), ?_⟩, by intro _; exact hp, by intro h; cases h⟩
+  refine ⟨⟨[], Reach.one (Move.lose s (!acc.isEmpty)), ?_⟩, by intro _; exact hp, (by intro h; cases h), accok_of_none hp⟩
   intro hl
   simp only [raise, Bool.or_eq_false_iff, Bool.not_eq_false', List.isEmpty_iff] at hl
   simp [raise, outBytes, pendAcc, hp, hl.2]
 
-theorem post_park {s : S} (hp : s.parked = none) (hb : s.bufs = []) (p : Pend) :
-    Post s p.acc (park s p) := by
+theorem post_park {s : S} (hp : s.parked = none) (hb : s.bufs = []) (p : Pend)
+    (hk : simpleKind p.kind = true → p.acc = []) : Post s p.acc (park s p) := by
   unfold park
   split
   · exact post_raise hp _ _
@@ -567,16 +581,17 @@ theorem post_park {s : S} (hp : s.parked = none) (hb : s.bufs = []) (p : Pend) :
     · exact post_raise hp _ _
     · rename_i hw
       simp at hw
-      refine ⟨⟨[], Reach.one (Move.park s p hw hb), ?_⟩, by intro h; exact absurd rfl h, by intro _; rfl⟩
-      intro _; simp [outBytes, pendAcc]
+      refine ⟨⟨[], Reach.one (Move.park s p hw hb), ?_⟩, by intro h; exact absurd rfl h, by intro _; rfl, ?_⟩
+      · intro _; simp [outBytes, pendAcc]
+      · intro q hq; simp at hq; subst hq; exact hk
 
 theorem post_of_reach {s s1 : S} {acc d1 : Bytes} {r : S × Out} (h1 : Reach s s1 d1)
     (h2 : Post s1 (acc ++ d1) r) : Post s acc r := by
-  obtain ⟨⟨d, hr, hd⟩, hu, hb⟩ := h2
-  exact ⟨⟨d1 ++ d, Reach.trans h1 hr, by intro hl; rw [hd hl, List.append_assoc]⟩, hu, hb⟩
+  obtain ⟨⟨d, hr, hd⟩, hu, hb, ha⟩ := h2
+  exact ⟨⟨d1 ++ d, Reach.trans h1 hr, by intro hl; rw [hd hl, List.append_assoc]⟩, hu, hb, ha⟩
 
 theorem post_data {s s' : S} {acc d : Bytes} (hp : s'.parked = none) (h : Reach s s' d) :
     Post s acc (s', .data (acc ++ d)) :=
-  ⟨⟨d, h, by intro _; simp [outBytes, pendAcc, hp]⟩, by intro _; exact hp, by intro h; cases h⟩
+  ⟨⟨d, h, by intro _; simp [outBytes, pendAcc, hp]⟩, by intro _; exact hp, (by intro h; cases h), accok_of_none hp⟩
 
 end Aio.C08
